@@ -11,13 +11,13 @@ EXHAUSTIVE
                {unweighted, weighted (weights 0.5, 2, 3, 2.5, 7 by position)}.  The relabelling is not
     monotone, so the sorted order of the labels differs from the construction order.
   * every temporal hypergraph on the node set {0..N-1} given by at most 3 distinct (time, hyperedge) pairs,
-    times in {0, 2}; N <= 3 (quick), N <= 4 (thorough); labels 0..N-1 / non-contiguous ints / strings;
-    unweighted, plus the weighted variant for the 0..N-1 labelling.
+    times in {0, 2}; N <= 3 (quick), N <= 4 (thorough); for N <= 3: labels 0..N-1 / non-contiguous ints / strings
+    unweighted, plus the weighted variant for the 0..N-1 labelling; for N = 4: labels 0..N-1 and strings, unweighted.
 SAMPLED (seeded)
   * random hypergraphs on 3..7 nodes, 1..8 hyperedges of size 1..5 in random insertion and in-edge order,
     label kinds: 0..N-1, 1..N, random (also negative) ints, strings, floats; isolated nodes added before and
-    after the hyperedges; 40 % weighted; one in five is uniform on 0..N-1 (tensor).  300 quick / 4000 thorough.
-  * random temporal hypergraphs on <= 6 nodes, <= 7 (time, hyperedge) pairs, times in 0..4.  100 / 1200.
+    after the hyperedges; 40 % weighted; one in five is uniform on 0..N-1 (tensor).  300 quick / 3000 thorough.
+  * random temporal hypergraphs on <= 6 nodes, <= 7 (time, hyperedge) pairs, times in 0..4.  100 / 1000.
 ONE STRESS INPUT (outside the <= 7 node scope, deterministic): 10 nodes, the 256 hyperedges {0,1} u S for
   every S c {2..9}: nodes 0 and 1 share 256 hyperedges (adjacency_matrix only).
 
@@ -395,11 +395,13 @@ def check_hg(rec, spec):
         m_adj = adjmaps[d] = _adjacency(run, "linalg.adjacency_matrix_by_order",
                            lambda **kw: L.adjacency_matrix_by_order(h, d, **kw), nodeset, nodeset, N,
                            lambda a, b: common(a, b, cols), cl)
-        # degree matrix, under the full mapping and under the mapping of the non-isolated nodes
+        # degree matrix, under the full mapping and (when it differs) under the mapping of the non-isolated nodes
         for keep, key in ((True, None), (False, "linalg.degree_matrix:partial mapping")):
             if keep not in rawmaps:
                 continue  # incidence_matrix_by_order gave no usable mapping: already reported above
             raw, mm = rawmaps[keep]
+            if not keep and len(mm) == N:
+                continue  # no node was dropped: same mapping as with keep_isolated_nodes=True
             fn = "linalg.degree_matrix"
             cl2 = cl + ", mapping=" + repr(_show(mm))
             ok, r = run.call(fn, lambda: L.degree_matrix(h, d, raw), cl2)
@@ -568,6 +570,7 @@ def check_temporal(rec, spec):
             if tuple(D.shape) == (n, n):
                 diag = [D[i][i].item() for i in range(n)]
                 run.check(all(_close(x, 0) for x in diag), fn, "zero diagonal", clt, expected=[0] * n, observed=diag)
+
         def same(r2):
             if not isinstance(r2, dict):
                 return False, repr(r2)
@@ -617,7 +620,8 @@ def exhaustive_specs(caps):
 def exhaustive_temporal_specs(max_n, max_pairs=3, times=(0, 2)):
     for N in range(1, max_n + 1):
         universe = [(t, c) for k in range(1, N + 1) for c in itertools.combinations(range(N), k) for t in times]
-        for kind, weighted in (("range", False), ("range", True), ("ints", False), ("str", False)):
+        variants = (("range", False), ("range", True), ("ints", False), ("str", False))
+        for kind, weighted in (variants if N <= 3 else (("range", False), ("str", False))):
             lab = _relabel(kind, N)
             for ne in range(0, min(max_pairs, len(universe)) + 1):
                 for es in itertools.combinations(universe, ne):
@@ -706,7 +710,7 @@ def run(ctx):
     if ctx.quick:
         k_plain, k_other, caps, tn, n_rand, n_rand_t = 3, 3, {N: (3, 3) for N in (1, 2, 3, 4)}, 3, 300, 100
     else:
-        k_plain, k_other, caps, tn, n_rand, n_rand_t = 5, 4, {N: (5, 4) for N in (1, 2, 3, 4)}, 4, 4000, 1200
+        k_plain, k_other, caps, tn, n_rand, n_rand_t = 5, 4, {N: (5, 4) for N in (1, 2, 3, 4)}, 4, 3000, 1000
         caps[5] = (2, 2)
     ex = list(exhaustive_specs(caps))
     ext = list(exhaustive_temporal_specs(tn))
